@@ -87,6 +87,7 @@ struct LcModel {
         pid_t pid = fork();
         if (pid == 0) {
           crash_ctx().out = nullptr;   // a crash here is this experiment's outcome, reported by the parent
+      child_watchdog();
           int code = 2;  // accepted
           try { obj[i]->deserialize(block.get(), static_cast<std::size_t>(sz)); } catch (const std::exception&) { code = 0; }
           if (!san_report().empty()) code = 1;  // the sanitizer saw an access outside the block
